@@ -66,7 +66,9 @@ ScanFit ==
 
 (* the scan fails: grow by the code's three-way policy, then retry *)
 GrowAmount == LET sizepa == req.size + req.a - 1 IN
-              IF sizepa > cap THEN sizepa ELSE IF GrowStep # 0 THEN GrowStep ELSE cap
+              IF sizepa > cap THEN sizepa
+              ELSE IF GrowStep # 0 THEN GrowStep * ((sizepa + GrowStep - 1) \div GrowStep)   \* smallest sufficient multiple
+              ELSE cap
 ScanGrow ==
   /\ pc = "scan" /\ FitIdx(req.size, req.a) = {}
   /\ cap + GrowAmount <= MaxCap
